@@ -70,7 +70,7 @@ pub fn ver_frame(mode: SizeMode, reqi: u8, insimver: u8, rng: &mut Rng) -> Vec<u
         // free-form version text: digits, dots, letters, multi-byte characters
         vb.clear();
         for _ in 0..rng.small(5) {
-            let a: &[u8] = *rng.pick(&TEXT_ATOMS[21..]);
+            let a: &[u8] = *rng.pick(&TEXT_ATOMS[24..]);
             vb.extend_from_slice(a);
         }
         vb.truncate(8);
@@ -260,7 +260,8 @@ fn rand_len(rng: &mut Rng, mode: SizeMode, cap: usize) -> usize {
 
 /// byte strings that text / version fields treat specially: escapes, codepage markers,
 /// multi-byte UTF-8, version syntax
-pub const TEXT_ATOMS: [&[u8]; 30] = [
+pub const TEXT_ATOMS: [&[u8]; 33] = [
+    b"\xC2\xB2", b"\xC2\xBD", b"\xD9\xA3",
     b"XFG\x00", b"FZ5\x00", b"BF1\x00", b"UF1\x00", b"BL1\x00", b"AS1R",
     b"^", b"^^", b"^J", b"^L", b"^G", b"^C", b"^E", b"^T", b"^B", b"^H", b"^S", b"^K", b"^8", b"^0", b"^v",
     b"a", b"1", b"0.7", b".", b"\xC3\xA9", b"\xE2\x82\xAC", b"\xF0\x9F\x98\x80", b"\x80", b"\xFF",
